@@ -9,6 +9,7 @@ import logging
 import sys
 from typing import Any, Dict, List, Optional
 
+from ..common import CaseTimeout
 from ..sim.world import quiet_logging
 
 TICK_CAP = 3000
@@ -70,6 +71,8 @@ class Sess:
     async def _run(self) -> None:
         try:
             await self.session.client_handshake()
+        except CaseTimeout:
+            raise
         except BaseException as e:  # noqa
             self.handshake_error = e
             if isinstance(e, asyncio.CancelledError):
@@ -78,6 +81,8 @@ class Sess:
         try:
             await self.session.listen()
         except asyncio.CancelledError:
+            raise
+        except CaseTimeout:
             raise
         except BaseException as e:  # SystemExit included: it must never escape, and must not end the process
             self.escaped = e
@@ -160,6 +165,8 @@ def run_in_fresh_loop(coro_fn: Any) -> Any:
                     t.cancel()
                 try:
                     loop.run_until_complete(asyncio.wait(pend, timeout=0))
+                except CaseTimeout:
+                    raise
                 except BaseException:
                     pass
             for t in asyncio.all_tasks(loop):
